@@ -97,8 +97,14 @@ impl LocalSpan {
     {
         #[cfg(feature = "enable")]
         if let Some(LocalSpanInner { stack, span_handle }) = &self.inner {
-            let span_stack = &mut *stack.borrow_mut();
-            span_stack.with_properties(span_handle, properties);
+            // Call the closure outside of the borrow: it may use the tracing API itself.
+            let is_recording = stack.borrow_mut().is_recording();
+            if is_recording {
+                let properties = properties();
+                stack
+                    .borrow_mut()
+                    .with_properties(span_handle, move || properties);
+            }
         }
 
         self
@@ -150,8 +156,12 @@ impl LocalSpan {
         {
             LOCAL_SPAN_STACK
                 .try_with(|s| {
-                    let span_stack = &mut s.borrow_mut();
-                    span_stack.add_properties(properties);
+                    // Call the closure outside of the borrow: it may use the tracing API itself.
+                    let is_recording = s.borrow_mut().is_recording();
+                    if is_recording {
+                        let properties = properties();
+                        s.borrow_mut().add_properties(move || properties);
+                    }
                     Some(())
                 })
                 .ok();
